@@ -20,7 +20,7 @@ outside (`World`): the idna codec `puny` and the TLD table `validTld`.
 * the clauses that hold for arbitrary parameters, instantiated (`links_*_concrete`).
 -/
 namespace Ural.Props.C17
-open Ural.Html Ural.Py Ural.Py.Re Ural.UrlPattern Ural.Canonicalize Ural.CanonRoundTrip
+open Ural.Html Ural.Py Ural.Py.Re Ural.Py.Re.Extra Ural.UrlPattern Ural.Canonicalize Ural.CanonRoundTrip
 open Ural.Gen.Patterns
 
 /-! ## `is_url` with the parser inside never raises -/
